@@ -287,8 +287,14 @@ pub trait Check: Sync {
     /// number of scenarios of this tier
     fn count(&self, tier: Tier) -> u64;
     /// per-scenario watchdog in seconds
-    fn watchdog_s(&self, _tier: Tier) -> u64 {
-        120
+    /// Seconds without progress (no new scenario started) after which a worker counts as hung.
+    /// Wall-clock, hence deliberately an order of magnitude above the slowest scenario of any
+    /// check on an idle machine (about 60 s): a loaded machine must not turn into an alarm.
+    fn watchdog_s(&self, tier: Tier) -> u64 {
+        match tier {
+            Tier::Quick => 600,
+            Tier::Thorough => 1800,
+        }
     }
     /// The only place where randomness is consumed.
     fn generate(&self, seed: u64, index: u64, tier: Tier) -> Value;
